@@ -31,17 +31,20 @@ def plan(tier):
                                  "push_values_inside_block", "push_values_overwide_value", "width_with_padding",
                                  "from_elem_max_refused", "value_equals_small_max", "value_above_small_max",
                                  "value_below_small_min", "set", "len_power_of_two",
-                                 "bitenc_more_than_65536_symbols", "fenwick_len_beyond_65536"],
+                                 "bitenc_more_than_65536_symbols", "fenwick_len_beyond_65536",
+                                 "wide_type_pairs", "small_value_with_top_bit_set"],
         "rule": "BitEnc: every complete history of <=2 (quick) / <=3 (thorough) operations that TLC generates from "
                 "the BitEnc machine at the real block size 32 for widths 1..8 (n and i chosen at the block seams, "
                 "values 1 and over-wide 255) replayed into the real BitEnc, plus seeded random histories of <=12 "
                 "operations aimed at block ends; after every operation the full observable state (nr_symbols, "
-                "nr_blocks, get(0..len+1), iter) is logged and must equal the abstract vector of the spec. "
-                "SmallInts: 5 (S,B) type pairs, values around S::MIN/S::MAX, negative, big; Fenwick: sum/max, "
+                "nr_blocks, get(0..len+1), iter -- also through nth / skip+take / step_by / last / count --) is logged and must equal the abstract vector of the spec. "
+                "SmallInts: 5 (S,B) type pairs, values around S::MIN/S::MAX, negative, big, and 7 wide pairs (u64/u128, "
+                "usize/u128, u32/u64, i32/i64, i64/i128, u16/u32, u8/u64) with values around every power-of-two width "
+                "boundary logged as decimal strings; Fenwick: sum/max, "
                 "lengths 1..100 incl. powers of two +-1, every/boundary index queried after every update",
         "bounds": {"mc": "BitEnc B=8 widths 1..3(4) values incl. over-wide, all histories <=3(4) ops; SmallInts "
                          "S-range -4..3, 9 values, <=4(5) ops; Fenwick len<=6(8), <=3(4) updates; generation: B=32",
-                   "impl": "BitEnc widths 1..8, histories <=12 ops, len <= ~150; SmallInts |v|<2^31"},
+                   "impl": "BitEnc widths 1..8, histories <=12 ops, len <= ~150; SmallInts narrow pairs |v|<2^31, wide pairs up to u128::MAX"},
         "assumptions": ["values are projected to integers by the harness (Option::None -> -1 / counters)",
                         "set(i,..) is only called with i < len (documented precondition)"],
     }
